@@ -9,6 +9,7 @@ CHECK = dict(
         "miekg/dns Msg.Len, net/netip prefix containment, golibs RingBuffer/netutil and patrickmn/go-cache expiry are trusted",
         "rewinding every stored instant of a Backoff (ring timestamps, cache expirations) by d is equivalent to d of time passing; the bookkeeping error of the rewind is measured and added as slack to every comparison",
         "callers respect the configuration preconditions: counts, key lengths, intervals, backoff count and size estimate are positive; the limiter gets unmapped, valid client addresses (netutil.NetAddrToAddrPort)",
+        "the slow-handler part runs in real time (interval 1 s, handler delays 0.3-0.8 s): the instants of the two limiter calls are only bounded (query: between the start of ServeDNS and the start of the handler; response: between the end of the handler and the return of ServeDNS) and the reference keeps every state those bounds allow; the required class is counted only when all probes fell at least 60 ms inside the zone where the response events alone decide",
         "schedules of the two concurrent parts (run under the race detector) are sampled, not owned; only per-client verdicts of clients that own their subnet/profile are judged exactly, the shared subnet only by a lower bound",
         "the plumbing part calls the real builder.initRateLimiter on a builder that holds only what that method reads (configuration section, environment URLs of the loopback stand-ins, loggers, a fresh prometheus registry); the refresh worker it starts ticks once an hour and stays idle; the ANY switch is written with the documented key `refuseany`",
         "a client address in IPv4-mapped form given to Backoff directly (the middlewares unmap it first) may be treated as the IPv6 address it is or as the IPv4 client it stands for, consistently; through the middlewares it is the IPv4 client",
@@ -23,6 +24,7 @@ CHECK = dict(
             dict(name="mw-scripted", run="^TestVerifC09MiddlewareScripted$", quick=5000, thorough=100000, shards_thorough=2),
             dict(name="mw-backoff", run="^TestVerifC09MiddlewareBackoff$", quick=4000, thorough=100000, shards_thorough=4),
             dict(name="backoff-concurrent", run="^TestVerifC09BackoffConcurrent$", quick=1500, thorough=40000, shards_thorough=4, race=True),
+            dict(name="slow-handler", run="^TestVerifC09SlowHandler$", quick=8, thorough=160, shards_quick=4, shards_thorough=8, timeout=900),
             dict(name="backoff-realtime", run="^TestVerifC09BackoffRealtime$", quick=0, thorough=480, shards_thorough=8, tier_only="thorough", timeout=1200),
         ]),
         dict(name="cmd", dir="internal/cmd", src="C09/cmd", runs=[
